@@ -815,6 +815,33 @@ async fn flood_family(cli: &Cli, report: &mut Report, late: &LateLog) {
     }
 }
 
+/// A drain that takes longer than any built-in default: connection timeout 14 s, a backend that
+/// needs 12 s; the cooperating client was in flight when shutdown was requested and must still get
+/// its Transfer, and listen() must not return before that.
+async fn long_drain() -> (Option<bool>, Option<f64>, Option<f64>, Option<String>) {
+    let direct = start_direct(DirectSpec { timeout: Duration::from_secs(14), discovery_latency: Duration::from_secs(12), ..Default::default() }).await;
+    let Ok(end) = TcpEnd::connect(direct.addr, None).await else { return (None, None, None, Some("connect failed".into())) };
+    let claimed = Ident { name: "Patient".into(), uuid: 4242 };
+    let plan = scripts::plan(scripts::login_script(2, "drain.example.org", 25565, &claimed, "en_us"), false, [5u8; 16], Duration::from_secs(20));
+    let addr = direct.addr;
+    let stop = direct.stop.clone();
+    let canceller = tokio::spawn(async move {
+        // well inside the login: the server has sent bytes to the client by then
+        tokio::time::sleep(Duration::from_millis(1000)).await;
+        stop.cancel();
+        Instant::now()
+    });
+    let started = Instant::now();
+    let log = Client::new(&end, plan).run().await;
+    let cancelled = canceller.await.unwrap_or_else(|_| Instant::now());
+    let transfer_at = log.first("Transfer").map(|r| (started + Duration::from_nanos(r.t_ns)).duration_since(cancelled).as_secs_f64());
+    let in_flight = log.first("EncryptionRequest").map(|r| started + Duration::from_nanos(r.t_ns) < cancelled);
+    let returned = direct.wait_returned(Duration::from_secs(14) + RETURN_SLACK).await.map(|t| t.saturating_duration_since(cancelled).as_secs_f64());
+    end.kill();
+    let _ = addr;
+    (in_flight.map(|f| f && transfer_at.is_some()), transfer_at, returned, if in_flight == Some(true) { None } else { Some("the client was not in flight when shutdown was requested".into()) })
+}
+
 pub async fn run_prop(cli: &Cli) -> i32 {
     let mut report = Report::new(
         cli,
@@ -826,11 +853,35 @@ pub async fn run_prop(cli: &Cli) -> i32 {
     report.assume("served = any byte received; a connection the kernel establishes on the still-open listening socket and that is never answered counts as not served");
     report.assume("adapter-log instants are lower bounds (the log's clock started after the base instant taken just before the listener was created)");
     report.assume("the ctrl-c wiring of the passage binary (src/lib.rs) is not exercised: no binary target is available to this crate; the stop token is cancelled directly");
+    let long = if cli.replay.is_none() { Some(tokio::spawn(long_drain())) } else { None };
     run(cli, &mut report).await;
     if cli.replay.is_none() {
         proxy_pending_family(cli, &mut report).await;
         let late = LateLog::start(Duration::from_millis(5));
         flood_family(cli, &mut report, &late).await;
+    }
+    if let Some(h) = long {
+        match h.await {
+            Ok((ok, transfer_at, returned, problem)) => {
+                let detail = json!({"transfer_received_s_after_cancel": transfer_at, "listen_returned_s_after_cancel": returned, "timeout_s": 14, "backend_s": 12});
+                if let Some(p) = problem {
+                    report.inconclusive(&format!("long drain: {p}"));
+                } else {
+                    report.eval(Some("long-drain/timeout-14s/backend-12s"));
+                    report.count("long drain: in-flight client served 11 s after the shutdown request", (ok == Some(true)) as u64);
+                    report.sample(json!({"case": "long drain", "observed": detail}));
+                    if ok != Some(true) {
+                        report.violation("b-inflight-client-lost-transfer/long-drain", "a cooperating client that was in flight did not receive its Transfer although the connection timeout (14 s) had not passed", detail.clone());
+                    }
+                    match (transfer_at, returned) {
+                        (Some(t), Some(r)) if r + 0.05 < t => report.violation("c-listen-returned-before-inflight-finished/long-drain", "listen() returned before the in-flight client had received its Transfer", detail.clone()),
+                        (_, None) => report.violation("d-listen-not-returned-within-timeout+5s/long-drain", "listen() did not return within timeout + 5 s", detail.clone()),
+                        _ => {}
+                    }
+                }
+            }
+            Err(e) => report.inconclusive(&format!("long drain task failed: {e}")),
+        }
     }
     report.finish()
 }
